@@ -623,8 +623,8 @@ func runDamagePhase(dumps []*scenState, keys []keyedQ) {
 		}
 		// The layer names are the loader's error texts on the pinned tree; a tree that words
 		// its errors differently is not less covered. What must be there: the loader both
-		// accepted inputs and refused them in at least six distinguishable ways.
-		if len(missing) > 0 && (len(layers) < 7 || !layers["accepted"]) {
+		// accepted inputs and refused them in at least four distinguishable ways.
+		if len(missing) > 0 && (len(layers) < 5 || !layers["accepted"]) {
 			rep.Inconclusive("damage phase never reached parser layer(s) %q and only %d distinct loader outcomes were seen", missing, len(layers))
 		} else if len(missing) > 0 {
 			rep.Extra("damage_parser_layers_not_recognised_by_their_pinned_error_text", missing)
